@@ -674,6 +674,15 @@ func (w *c38World) opDelete() {
 
 func (w *c38World) opSetDefault() {
 	a := w.pick("new-default")
+	if a != nil && a.def && len(w.accts) > 1 && uniform(w.t, 4, "keep-default") != 0 {
+		// re-selecting the default is a documented no-op that saves nothing: mostly pick another account
+		for _, b := range w.accts {
+			if !b.def {
+				a = b
+				break
+			}
+		}
+	}
 	addr, what := "", ""
 	if a == nil || uniform(w.t, 5, "unknown") == 0 {
 		addr, what, a = w.unknownAddr(), "unknown", nil
@@ -829,12 +838,26 @@ func c38Run(t *testing.T, p c38Profile, quick, thorough int) {
 		Assume("key pairs and salts come from crypto/rand inside NewAccount/EncryptPrivateKey; addresses therefore differ between runs and are never part of a draw or of the case description").
 		Assume("AES-GCM authentication makes decryption with a wrong scrypt key fail; wrong passwords are sampled (2 + the empty one per checked account), not enumerated").
 		Assume("passwords are non-empty byte strings without NUL bytes and shorter than 64 bytes (what a terminal or a command line can deliver): scrypt's PBKDF2-HMAC-SHA256 zero-pads keys to the 64-byte block and hashes longer ones, so p and p||0x00 (and a >64-byte p and sha256(p)) are the same key by construction of HMAC, not by a choice of the wallet")
-	ev.Floor("op:ChangePassword:ok", "op", 0.04)
-	ev.Floor("op:DeleteAccount:ok", "op", 0.02)
-	ev.Floor("op:reopen", "op", 0.08)
+	// Floors are evaluated per process (one profile, one shard) and only from 200 operations on, so they are
+	// tied to the profile's weights: an operation the profile rarely draws is not expected here.
+	okScale := 1.0
+	if p.faults == 2 {
+		okScale = 0.25 // half of the saving operations fail there by construction
+	}
+	if p.w[5] >= 10 {
+		ev.Floor("op:ChangePassword:ok", "op", 0.04*okScale)
+	}
+	if p.w[2] >= 10 {
+		ev.Floor("op:DeleteAccount:ok", "op", 0.016*okScale)
+	}
+	ev.Floor("op:reopen", "op", 0.06)
 	ev.Floor("fault:injected", "op", 0.08)
-	for _, op := range []string{"NewAccount", "ImportAccount", "DeleteAccount", "SetDefaultAccount", "SetLabel", "ChangePassword", "ChangeSigScheme"} {
-		ev.Floor("fault:"+op+":save-failed", "fault:injected", 0.015)
+	if p.faults == 2 {
+		// the fault profile draws every saving operation often enough, and its thorough shards are sized to
+		// pass 200 operations: each operation must have met at least one failing save per process
+		for _, op := range []string{"NewAccount", "ImportAccount", "DeleteAccount", "SetDefaultAccount", "SetLabel", "ChangePassword", "ChangeSigScheme"} {
+			ev.Floor("fault:"+op+":save-failed", "op", 0.004)
+		}
 	}
 
 	steps := p.steps
@@ -893,9 +916,10 @@ func TestC38_Schemes(t *testing.T) {
 	c38Run(t, c38Profile{name: "schemes", w: [8]int{24, 6, 8, 4, 4, 8, 28, 18}, allK: true}, 5, 60)
 }
 
-// every second saving operation meets a failing save; password changes dominate
+// every second saving operation meets a failing save; all seven saving operations are drawn often
+// (thorough: 20 histories per shard so that the per-operation floors are enforced)
 func TestC38_SaveFaults(t *testing.T) {
-	c38Run(t, c38Profile{name: "savefaults", w: [8]int{10, 8, 12, 12, 14, 26, 8, 10}, steps: 10, faults: 2}, 5, 60)
+	c38Run(t, c38Profile{name: "savefaults", w: [8]int{12, 10, 16, 12, 14, 20, 12, 8}, steps: 10, faults: 2}, 5, 120)
 }
 
 // long histories of the operations that cost no scrypt time (default, label, scheme; valid, invalid, unknown address)
